@@ -150,8 +150,8 @@ def make_class(spec):
     attrs = {'writes': []}
     for p in spec['params']:
         attrs[p['name']] = PersistentParam(f"persistent {p['name']}", specs.build(p['T']), default=p['default'],
-                                           persistent=p['persistent'], readonly=False)
-        if p.get('write'):
+                                           persistent=p['persistent'], readonly=bool(p.get('readonly')))
+        if p.get('write') and not p.get('readonly'):
             def wfunc(self, value, pname=p['name']):
                 self.writes.append((pname, rm.canon(value)))
                 return value
@@ -229,7 +229,9 @@ def module_case(draw):
     for i in range(n):
         T = draw(specs.tree_spec(2))
         params.append({'name': f'p{i}', 'T': T, 'default': draw(specs.valid_value(T, True)),
-                       'persistent': draw(st.sampled_from(['on', 'auto', 'auto'])), 'write': draw(st.booleans())})
+                       'persistent': draw(st.sampled_from(['on', 'auto', 'auto'])), 'write': draw(st.booleans()),
+                       # read-only for clients and without write method: only the driver changes it (encoder, counter ...)
+                       'readonly': draw(st.integers(0, 3)) == 0})
     history = []
     for _ in range(draw(st.integers(1, 4))):
         p = draw(st.sampled_from(params))
